@@ -146,7 +146,7 @@ func runC16(c *an.Ctx) {
 	} else {
 		// reader: tags of anonymous struct destinations in convertToExp
 		readerKeys := map[string]bool{}
-		an.Instrs(conv, func(in ssa.Instruction) {
+		scanReader := func(in ssa.Instruction) {
 			cl := an.AsCallAny(in)
 			if cl == nil {
 				return
@@ -172,7 +172,11 @@ func runC16(c *an.Ctx) {
 					readerKeys[name] = true
 				}
 			}
-		})
+		}
+		// convertToExp and the private helpers its arms were moved into (generic instantiations included)
+		for _, m := range familyOf(p, conv, 2) {
+			an.Instrs(m, scanReader)
+		}
 		// writer: constants of the form ..."key":  written by encodeJSON
 		writerKeys := map[string]bool{}
 		an.Instrs(enc, func(in ssa.Instruction) {
